@@ -126,6 +126,32 @@ func FormatRules(p *load.Program, tb *kinds.Table, pres *FieldPresence, pf *Prin
 				}
 			}
 			_ = pi
+			// a loop over all elements but the last followed by a visit of the last one is a loop over the list
+			{
+				var merged []fmtEvent
+				open := map[string]int{}
+				for _, ev := range evs {
+					switch ev.kind {
+					case "child-init":
+						open[ev.field] = len(merged)
+						ev.kind = "child-loop-open"
+						merged = append(merged, ev)
+					case "child-last":
+						if i, ok := open[ev.field]; ok {
+							merged[i].kind = "child-loop"
+							delete(open, ev.field)
+						} else {
+							undecided = "the last element of " + ev.field + " is visited without the elements before it"
+						}
+					default:
+						merged = append(merged, ev)
+					}
+				}
+				for f := range open {
+					undecided = "the elements of " + f + " but the last are visited, the last one is not"
+				}
+				evs = merged
+			}
 			// ---- nil safety
 			for _, ev := range evs {
 				f := k.Field(ev.field)
@@ -465,6 +491,13 @@ func (im *Impl) fmtStmt(st ast.Stmt, recv, n types.Object, evs *[]fmtEvent) stri
 				*evs = append(*evs, fmtEvent{kind: "child", field: f, pos: st.Pos()})
 				return ""
 			}
+			// the last element of a child list, visited after a loop over the elements before it (the last iteration peeled off)
+			if ix, ok := unparen(xe).(*ast.IndexExpr); ok {
+				if f, ok := im.fieldOf(ix.X, n); ok && isLenMinusOne(ix.Index, ix.X) {
+					*evs = append(*evs, fmtEvent{kind: "child-last", field: f, arg: f, pos: st.Pos()})
+					return ""
+				}
+			}
 			return "Accept on " + exprString(xe)
 		}
 		if name, ok := im.methodCall(call, recv); ok {
@@ -490,6 +523,13 @@ func (im *Impl) fmtStmt(st ast.Stmt, recv, n types.Object, evs *[]fmtEvent) stri
 
 // fmtLoop: `for _, m := range n.L { m.Accept(f) … }` and the indexed variant with separators.
 func (im *Impl) fmtLoop(loop ast.Stmt, recv, n types.Object, evs *[]fmtEvent) string {
+	if fs, ok := loop.(*ast.ForStmt); ok {
+		// for i := 0; i < len(n.L)-1; i++ { n.L[i].Accept(f) … }: every element but the last; the last one follows the loop
+		if f, ok := im.allButLast(fs, recv, n); ok {
+			*evs = append(*evs, fmtEvent{kind: "child-init", field: f, arg: f, pos: loop.Pos()})
+			return ""
+		}
+	}
 	rs, ok := loop.(*ast.RangeStmt)
 	if !ok {
 		return "loop that is not a range over a child list"
@@ -523,6 +563,62 @@ func (im *Impl) fmtLoop(loop ast.Stmt, recv, n types.Object, evs *[]fmtEvent) st
 	}
 	_ = sepField
 	return ""
+}
+
+// isLenMinusOne: e is len(of) - 1.
+func isLenMinusOne(e, of ast.Expr) bool {
+	b, ok := unparen(e).(*ast.BinaryExpr)
+	if !ok || b.Op != token.SUB {
+		return false
+	}
+	if l, ok := unparen(b.Y).(*ast.BasicLit); !ok || l.Value != "1" {
+		return false
+	}
+	c, ok := unparen(b.X).(*ast.CallExpr)
+	if !ok || len(c.Args) != 1 {
+		return false
+	}
+	id, ok := c.Fun.(*ast.Ident)
+	return ok && id.Name == "len" && exprString(unparen(c.Args[0])) == exprString(unparen(of))
+}
+
+// allButLast: the loop walks i from 0 while i < len(n.L)-1 and visits n.L[i].
+func (im *Impl) allButLast(fs *ast.ForStmt, recv, n types.Object) (string, bool) {
+	init, ok := fs.Init.(*ast.AssignStmt)
+	if !ok || len(init.Lhs) != 1 || len(init.Rhs) != 1 {
+		return "", false
+	}
+	iv, ok := init.Lhs[0].(*ast.Ident)
+	if !ok {
+		return "", false
+	}
+	if l, ok := unparen(init.Rhs[0]).(*ast.BasicLit); !ok || l.Value != "0" {
+		return "", false
+	}
+	post, ok := fs.Post.(*ast.IncDecStmt)
+	if !ok || post.Tok != token.INC || exprString(post.X) != iv.Name {
+		return "", false
+	}
+	cond, ok := unparen(fs.Cond).(*ast.BinaryExpr)
+	if !ok || cond.Op != token.LSS || exprString(unparen(cond.X)) != iv.Name {
+		return "", false
+	}
+	field, found := "", false
+	ast.Inspect(fs.Body, func(nd ast.Node) bool {
+		call, ok := nd.(*ast.CallExpr)
+		if !ok {
+			return true
+		}
+		if xe, arg, ok := im.acceptCall(call); ok && im.isObj(arg, recv) {
+			if ix, ok := unparen(xe).(*ast.IndexExpr); ok && exprString(unparen(ix.Index)) == iv.Name {
+				if f, ok := im.fieldOf(ix.X, n); ok && isLenMinusOne(cond.Y, ix.X) {
+					field, found = f, true
+				}
+			}
+		}
+		return true
+	})
+	return field, found
 }
 
 // fmtReviewed: token slots whose absence is tied to a property of a child that the path conditions do not express.
